@@ -113,6 +113,12 @@ func artefact2(c C13Case, order []int) (art string, imports int, suffixed bool, 
 					srcs[k] += "\n/** @param? zzUndeclared */\n{template .zzCand}{$zzUndeclared ?: 'c'}{/template}\n"
 				}
 			}
+		case 9:
+			// ... names that nothing declares, as the values of one map literal
+			srcs[c.BreakFile] += "\n/** */\n{template .zzBroken}{['a': $title, 'b': $body, 'c': $footer, 'd': $aside]}{/template}\n"
+		case 10:
+			// ... globals that nothing defines, as the values of one map literal
+			srcs[c.BreakFile] += "\n/** */\n{template .zzBroken}{['a': zz.NO_A, 'b': zz.NO_B, 'c': zz.NO_C, 'd': zz.NO_D]}{/template}\n"
 		case 8:
 			// (two further files define one template: see below)
 		case 4:
@@ -483,7 +489,7 @@ func genC13(t *rapid.T) C13Case {
 	c := C13Case{Prog: pc, BreakFile: -1, TrickyKeys: rapid.IntRange(0, 2).Draw(t, "trickyKeys") == 0}
 	if rapid.IntRange(0, 4).Draw(t, "break") == 0 {
 		c.BreakFile = rapid.IntRange(0, len(pc.Prog.Files)-1).Draw(t, "breakFile")
-		c.BreakKind = rapid.IntRange(0, 8).Draw(t, "breakKind")
+		c.BreakKind = rapid.IntRange(0, 10).Draw(t, "breakKind")
 	}
 	c.DupGlobals = rapid.IntRange(0, 19).Draw(t, "dupGlobals") == 0
 	if rapid.IntRange(0, 5).Draw(t, "jsFail") == 0 {
